@@ -439,6 +439,11 @@ func runScript(sc *Script) *Outcome {
 		if hung {
 			cr.Class = "HUNG"
 			out.Calls = append(out.Calls, cr)
+			srv.mu.Lock()
+			if n := srv.nreq - nreqBefore; n > 100 {
+				r.viol("call-returns", "retry-storm:"+call.Api, fmt.Sprintf("%s put %d requests on the wire and still had not returned after %v", call.Api, n, r.bound()))
+			}
+			srv.mu.Unlock()
 			r.viol("call-returns", "call-hang:"+call.Api,
 				fmt.Sprintf("%s did not return within %v (ReadTimeout=WriteTimeout=%v); goroutines:\n%s", call.Api, r.bound(), rt, strings.Join(libGoroutines(), "\n\n")))
 			aborted = true
@@ -457,6 +462,11 @@ func runScript(sc *Script) *Outcome {
 		if lim := (nreqCall+2)*int(rt.Milliseconds()) + 1000; ms > lim && sc.ConcAt == 0 {
 			r.viol("call-returns", "call-blocked:"+call.Api,
 				fmt.Sprintf("%s took %d ms with %d requests on the wire (ReadTimeout=WriteTimeout=%v, allowed %d ms)", call.Api, ms, nreqCall, rt, lim))
+		}
+		// no call needs more than a handful of requests per connection and at most eleven connections
+		if nreqCall > 100 {
+			r.viol("call-returns", "retry-storm:"+call.Api,
+				fmt.Sprintf("%s put %d requests on the wire before it returned (%s)", call.Api, nreqCall, cr.Class))
 		}
 		if co.desc != nil {
 			r.desc = co.desc
